@@ -3,6 +3,8 @@ import Marwood.Lemmas.StoreList
 import Marwood.Lemmas.PreludeAgree
 import Marwood.Lemmas.PreludeInterpAss
 import Marwood.Lemmas.PreludeInterpMap
+import Marwood.Lemmas.PreludeLength
+import Marwood.Lemmas.TotalLength
 /-!
 # C14 — list and vector procedures match their specification and preserve identity
 
@@ -416,40 +418,34 @@ theorem listToVector_err {s : Store} {v c : VCell} {as : List Nat} {fuel : Nat}
       collectCars_spec rest fuel a d [] ht (by simp at hfuel; omega), hc, Bool.not_false, if_true]
     exact ⟨_, rfl⟩
 
-/-- (a) `length` of a proper list -/
+/-- (a) `length` of a proper list (the prelude's definition after the repair of `C06-circular-length`:
+    two cursors, `Store.length` / `Store.lengthCount`; one unit of fuel for the call of `length`, one per
+    call of its local `count`, which advances two pairs) -/
 theorem length_ok {s : Store} {v : VCell} {as : List Nat} (hl : IsList s v as) :
-    ∀ fuel, as.length < fuel → length fuel s v = .ok (.num as.length) := by
-  induction hl with
-  | nil hg =>
-    intro fuel hfuel
-    obtain ⟨f, rfl⟩ : ∃ f, fuel = f + 1 := ⟨fuel - 1, by omega⟩
-    simp only [length, nullP_of_get hg, bind_ok, VCell.isNil_nil, if_true, List.length_nil]
-    rfl
-  | cons hg _ ih =>
-    intro fuel hfuel
-    obtain ⟨f, rfl⟩ : ∃ f, fuel = f + 1 := ⟨fuel - 1, by omega⟩
-    rename_i v a d as _
-    simp only [length, nullP_of_get hg, bind_ok, VCell.isNil, Bool.false_eq_true, if_false,
-      cdrV_ok hg, ih f (by simp at hfuel; omega), add1, Store.get, List.length_cons]
-    simp
+    ∀ fuel, as.length / 2 + 1 < fuel → length fuel s v = .ok (.num as.length) :=
+  fun _ hfuel => length_spine_ok hl.toSpine hfuel
 
-/-- (b) `length` of an improper list or a non-list is an error -/
+/-- (b) `length` of an improper list or a non-list is an error — the same `expected pair` error as
+    before the repair -/
 theorem length_err {s : Store} {v c : VCell} {as : List Nat} (hl : Spine s v as c)
-    (hc : c.isNil = false) : ∀ fuel, as.length < fuel → ∃ e, length fuel s v = .err e := by
-  induction hl with
-  | done hg hp =>
-    intro fuel hfuel
-    obtain ⟨f, rfl⟩ : ∃ f, fuel = f + 1 := ⟨fuel - 1, by omega⟩
-    simp only [length, nullP_of_get hg, bind_ok, hc, Bool.false_eq_true, if_false, cdrV_err hg hp,
-      bind_err]
-    exact ⟨_, rfl⟩
-  | cons hg _ ih =>
-    intro fuel hfuel
-    obtain ⟨f, rfl⟩ : ∃ f, fuel = f + 1 := ⟨fuel - 1, by omega⟩
-    obtain ⟨e, he⟩ := ih hc f (by simp at hfuel; omega)
-    simp only [length, nullP_of_get hg, bind_ok, VCell.isNil, Bool.false_eq_true, if_false,
-      cdrV_ok hg, he, bind_err]
-    exact ⟨_, rfl⟩
+    (hc : c.isNil = false) : ∀ fuel, as.length / 2 + 1 < fuel → length fuel s v = .err .pair :=
+  fun _ hfuel => length_spine_err hl hc hfuel
+
+/-- (b′) `length` of a circular list — the cdr chain of the argument (`THL.cellAt s c k`: the cell `k`
+    cdr steps away) consists of pairs for ever — is that error too, never `diverge`, within
+    `|cells| + 2` units of fuel, on every well-formed store -/
+theorem length_cyclic_err {s : Store} (hs : s.WF) {v c : VCell} (hv : VCell.Valid s v) (hg : s.get v = .ok c)
+    (hcyc : ∀ k, (THL.cellAt s c k).isPair = true) :
+    ∀ fuel, s.cells.length + 2 ≤ fuel → length fuel s v = .err .pair :=
+  fun _ hfuel => Marwood.Store.length_cyclic_err hs hv hg hcyc hfuel
+
+/-- (a)(b)(b′) together, for every valid argument on every well-formed store: the number of pairs when
+    the cdr chain reaches `()`, the error when it does not -/
+theorem length_total {s : Store} (hs : s.WF) {v : VCell} (hv : VCell.Valid s v) :
+    ∀ fuel, s.cells.length + 2 ≤ fuel →
+      (ProperList s v ∧ ∃ n : Nat, length fuel s v = .ok (.num n)) ∨
+      (¬ ProperList s v ∧ length fuel s v = .err .pair) :=
+  fun _ hfuel => Marwood.Store.length_total hs hv hfuel
 
 /-- (a) `list?` is `#t` exactly on proper lists (for every acyclic argument) -/
 theorem isList_spec {s : Store} {v c : VCell} {as : List Nat} {fuel : Nat}
@@ -802,6 +798,20 @@ example := listToVector_ok (fuel := 5) ex_list (by decide)
 example := listToVector_err (fuel := 5) ex_improper rfl (by decide)
 example := length_ok ex_list 3 (by decide)
 example := length_err ex_improper rfl 3 (by decide)
+-- the one-element cycle `#0=(1 . #0#)`: every cell of the chain is the pair itself
+def exCirc : Store := { cells := [.num 1, .pair 0 1], vecs := [], strs := [] }
+theorem exCirc_wf : exCirc.WF := by
+  constructor
+  · intro c hc
+    simp only [exCirc, List.mem_cons, List.mem_nil_iff, or_false] at hc
+    rcases hc with rfl | rfl <;> simp [VCell.Valid, exCirc]
+  · intro xs hxs; simp [exCirc] at hxs
+theorem exCirc_chain : ∀ k, THL.cellAt exCirc (.pair 0 1) k = .pair 0 1
+  | 0 => rfl
+  | k+1 => by show THL.nx exCirc (THL.cellAt exCirc (.pair 0 1) k) = _; rw [exCirc_chain k]; rfl
+example := length_cyclic_err exCirc_wf (v := .ptr 1) (by simp [VCell.Valid, exCirc]) rfl
+  (fun k => by rw [exCirc_chain k]; rfl) 4 (by decide)
+example : length 2 exCirc (.ptr 1) = .err .pair := rfl
 example := isList_spec (fuel := 5) ex_improper (by decide)
 example := listTail_ok ex_spine (Or.inr rfl) (ex_idx 2) (by decide)
 example := listTail_err ex_spine (ex_idx 3) (by decide)
@@ -824,7 +834,8 @@ example := ass_spec (s := exStore) (test := eqTest) (obj := .num 1) (p := fun _ 
 
 `Gen.PreludeProcs.procs` is regenerated from `marwood/prelude.scm` on every run
 (`translate/prelude_procs.py`); `Store.Prelude.sourceOf` records, as data, the top-level form each
-model of `Store/Prelude.lean` (`length`, `mem`, `ass`, `anyNull`, `map1`, `mapAll`, `forEachAll`;
+model of `Store/Prelude.lean` (`length` / `lengthCount`, `mem`, `ass`, `anyNull`, `map1`, `map` / `mapAll`,
+`forEach` / `forEachAll`;
 `ListOps.list`) was transcribed from. The theorems below are closed (kernel evaluation of two small
 terms): when a library procedure of the prelude changes, the one for that procedure no longer holds
 and this module stops building; the operation-sequence correspondence then exhibits the behavioural
@@ -885,7 +896,7 @@ theorem prelude_mem_family :
 `#f`, lexical resolution of the operator, one unit of fuel per call of a Scheme-defined procedure).
 For every fuel, store and argument the hand-written model IS that image — the transcription is no
 longer trusted; what is trusted instead is the 150-line interpretation function (its reading of
-`if`, `cond`, `and`, `or`, `begin`, `letrec`, `apply`) and the builtin table `prims`. -/
+`if`, `cond`, `and`, `or`, `begin`, `letrec`, `apply`, `quote`) and the builtin table `prims`. -/
 
 section PreludeImages
 open Marwood.Store.Prelude
@@ -932,7 +943,8 @@ theorem prelude_image_map1 {gname : String} {g : Callee} (hP : prims efuel user 
     interp (prims efuel user) defs fuel "map1" s [.builtin gname, xs] = map1 g fuel s xs :=
   interp_map1 hP fuel s xs
 
-/-- `map` (one more unit of fuel than the model: the model starts at `map-all`) -/
+/-- `map` (one more unit of fuel than the model: the model starts at `map-all`); `lists` may be empty:
+    both sides are then the arity error (`(define (map f xs . xss) …)` requires a list) -/
 theorem prelude_image_map {gname : String} {g : Callee} (hP : prims efuel user gname = some g)
     (fuel : Nat) (s : Store) (lists : List VCell) :
     interp (prims efuel user) defs (fuel+1) "map" s (.builtin gname :: lists) = map g fuel s lists :=
@@ -957,6 +969,9 @@ theorem prelude_image_list (fuel : Nat) (s : Store) (args : List VCell) :
 example : prims 0 (fun n => if n == "g" then some cons else none) "g" = some cons := by simp [prims]
 example : interp (prims 0 (fun _ => none)) defs 6 "map" Store.empty [.builtin "car"] =
     map car 5 Store.empty [] := prelude_image_map (by simp [prims]) 5 _ _
+/-- `(map f)` / `(for-each f)` without a list: the arity error, with any fuel (they used to loop) -/
+theorem map_without_list (g : Callee) (fuel : Nat) (s : Store) :
+    map g fuel s [] = .err .arity ∧ forEach g fuel s [] = .err .arity := ⟨rfl, rfl⟩
 
 end PreludeImages
 
